@@ -18,7 +18,9 @@ QUERIES = [
     ("L.a + R.a", True), ("L[['a']] + R[['a']]", True), ("L.a.fillna(R.a)" if False else "L.assign(z=R.a)", True),
     ("L.merge(R, left_index=True, right_index=True)", False), ("L.merge(R, left_index=True, right_index=True, how='outer')", False),
     ("L.merge(R, left_index=True, right_index=True, how='left')", False),
-    ("dx.concat([L, R])", True), ("dx.concat([L, R], interleave_partitions=True)", False), ("dx.concat([L.a, L.b], axis=1)", True),
+    ("dx.concat([L, R])", True), ("dx.concat([L, R], interleave_partitions=True)", False),
+    # T starts where L ends (touching ranges: L's last partition holds its upper bound), U lies strictly after L
+    ("dx.concat([L, T])", True), ("dx.concat([L[['a']], T[['a']]]).loc[:25]", True), ("dx.concat([L, U])", True), ("dx.concat([L, T], interleave_partitions=True)", False), ("dx.concat([L.a, L.b], axis=1)", True),
     ("L.a.shift(1)", True), ("L.cumsum()", True), ("L.a.diff()", True),
     ("L.reset_index()", True), ("L.index.to_series()", True), ("L.rename(columns={'a': 'x'})", True),
     ("L.set_index('a', divisions=[-100, 0, 100])", False),
@@ -45,6 +47,10 @@ def programs(tier):
             srcs = [Src("L", n, LCOLS, nparts, how="delayed", cuts=cuts, divisions=divs)]
             if "R" in text.replace("Repartition", ""):
                 srcs.append(Src("R", 3, RCOLS, 2, how="delayed", cuts=(0, 1, 3), divisions=(0, 12, 30)))
+            if "T" in text:
+                srcs.append(Src("T", 3, LCOLS, 2, how="delayed", cuts=(0, 1, 3), divisions=(divs[-1], divs[-1] + 5, divs[-1] + 9)))
+            if "U" in text:
+                srcs.append(Src("U", 3, LCOLS, 2, how="delayed", cuts=(0, 1, 3), divisions=(divs[-1] + 1, divs[-1] + 5, divs[-1] + 9)))
             assume = None
             if "set_index('a', divisions=[-100, 0, 100])" in text:
                 # the divisions are the user's assertion: assume the data respects them
@@ -84,6 +90,8 @@ def length_programs(tier):
         extra = ["L.partitions[[1]]", "L.partitions[[2, 0]]", "(L + 1).partitions[[1, 2]]", "L.a", "L.index", "dx.concat([L, L])", "L.merge(R, on='a')", "L.a.to_frame()", "L[['a']].fillna(1).partitions[[0]]"]
         R2 = Src("R", 4, {"a": "i", "b": "f", "e": "i"}, nparts + 1)
         unaligned = ["dx.concat([L[['a']], R[['e']]], axis=1)", "dx.concat([L[['a']], R[['e']]], axis=1, join='inner')", "dx.concat([R.e, L.a, L.c], axis=1)", "dx.concat([L.a, L.c + 1], axis=1)",
+                     "dx.concat([L[L.a > 1][['a']], L[['c']]], axis=1)", "dx.concat([L.b.dropna(), L.a], axis=1)", "dx.concat([L[['c']], L[L.a > 1][['a']]], axis=1, join='inner')",
+                     "L[['a']][L.a > 1] + L[['a']]"] + (["L.a[L.a > 1] + L.c"] if (nrows, nparts) == (5, 3) else []) + [  # (open known finding, pinned to one layout)
                      "L.b.fillna(R.b)", "L.a.mask(L.a > 1, R.a)", "L.a.where(L.a > 1, R.e)", "L.a + R.a", "L.assign(z=R.e)", "L[['a']].fillna(R[['a']])"]
         for text in unaligned:
             for wrap in ("LEN({})", "({}).size"):
